@@ -208,6 +208,16 @@ Theorem C13_library_sequence_is_union : forall splint quadS lnr isclose a xs r,
 Proof. exact lib_seq_union. Qed.
 Print Assumptions C13_library_sequence_is_union.
 
+(* ... and the group's valid range is the union of the ranges given for it (range_union folded over the sources in list order;
+   C13_library_any_order below shows that the order is immaterial) *)
+Theorem C13_library_sequence_range : forall splint quadS lnr isclose a xs r,
+  Forall (fun x => NoDup (map fst x)) xs ->
+  Forall (fun x => forall g c, lib_get (K:=Rops) x g = Some c -> NoDup (map fst (i_tab c))) xs ->
+  lupd_seq splint quadS lnr isclose a xs = Some r -> forall g c, lib_get (K:=Rops) r g = Some c ->
+  i_range c = fold_left (range_union (K:=Rops)) (map i_range (srcs g xs)) (orange (lib_get (K:=Rops) a g)).
+Proof. exact lib_seq_range. Qed.
+Print Assumptions C13_library_sequence_range.
+
 (* "whatever the include order": two accepted merge sequences over lists of libraries that are permutations of each other leave
    every group with the same table (as a map) and the same valid range *)
 Theorem C13_library_any_order : forall splint quadS lnr isclose a xs ys r1 r2, Permutation xs ys ->
